@@ -1,0 +1,16 @@
+//go:build verif
+
+package certs
+
+import "crypto/tls"
+
+// VerifPutCert places a leaf certificate in the per-host cache (build tag `verif`),
+// so a harness can test the handling of expired cached leaves.
+func (ca *PrivateCA) VerifPutCert(host string, cert *tls.Certificate) {
+	ca.certs.Set(host, cert)
+}
+
+// VerifPeekCert returns the cached leaf of a host without issuing one.
+func (ca *PrivateCA) VerifPeekCert(host string) (*tls.Certificate, bool) {
+	return ca.certs.Get(host)
+}
